@@ -447,6 +447,20 @@ def xmonoCubic (c : Cub Float) : List (Pt Float) :=
     out1 ++ [l.p1, l.p2, l.p3, r.p1, r.p2, r.p3]
   else out1 ++ [cur.p1, cur.p2, cur.p3]
 
+/-- Path.CubeTo / Path.QuadTo drop a piece whose control and end points all `Equals` the current position
+(path.go:441, 462); `pos` is the current position of the path being built -/
+def dropGo (k : Nat) : Nat → Pt Float → List (Pt Float) → List (Pt Float)
+  | 0, _, _ => []
+  | fuel + 1, pos, pts =>
+    if k == 0 || pts.length < k then [] else
+    let piece := pts.take k
+    let rest := pts.drop k
+    if piece.all (fun q => ptEquals pos q) then dropGo k fuel pos rest
+    else piece ++ dropGo k fuel (piece.getLast?.getD pos) rest
+
+def dropDegenerate (k : Nat) (pos : Pt Float) (pts : List (Pt Float)) : List (Pt Float) :=
+  dropGo k (pts.length + 1) pos pts
+
 /-! verdict lines: the curve is sampled here (generated Bernstein evaluators), the polyline is the real
 code's output; `coveredBy` is the specification proved sound in CanvasProofs/C03.lean -/
 
@@ -526,11 +540,11 @@ def handle : List String → Option String
     | _ => none
   | "XQ" :: args => do
     match ← floats args with
-    | [a, b, c, d, e, f] => pure (showPts (xmonoQuad ⟨a, b⟩ ⟨c, d⟩ ⟨e, f⟩))
+    | [a, b, c, d, e, f] => pure (showPts (dropDegenerate 2 ⟨a, b⟩ (xmonoQuad ⟨a, b⟩ ⟨c, d⟩ ⟨e, f⟩)))
     | _ => none
   | "XC" :: args => do
     match ← floats args with
-    | [a, b, c, d, e, f, g, h] => pure (showPts (xmonoCubic ⟨⟨a, b⟩, ⟨c, d⟩, ⟨e, f⟩, ⟨g, h⟩⟩))
+    | [a, b, c, d, e, f, g, h] => pure (showPts (dropDegenerate 3 ⟨a, b⟩ (xmonoCubic ⟨⟨a, b⟩, ⟨c, d⟩, ⟨e, f⟩, ⟨g, h⟩⟩)))
     | _ => none
   | "HD" :: deg :: args => do
     hausdorffVerdict deg (← floats args)
